@@ -78,7 +78,7 @@ def random_script(rng, kind, size, nops, full_bytes=True):
             # the C ring and ring<char> have bulk calls taking a bound; "write what fits": a bound above the length of a data block
             # that holds at least room() bytes
             w = "Write" if kind != "xc" or rng.random() < 0.5 else "BWrite"
-            if kind not in ("xi", "xt") and n >= cap - fill and (w == "BWrite" or kind == "c") and rng.random() < 0.3:
+            if kind not in ("xi", "xt", "xl") and n >= cap - fill and (w == "BWrite" or kind == "c") and rng.random() < 0.3:
                 lines.append("%s %s %d" % (w, fmt_list([rb() for _ in range(n)]) if n else "-", rng.choice(BOUNDS)))
             else:
                 lines.append("%s %s" % (w, fmt_list([rb() for _ in range(n)])))
@@ -153,7 +153,7 @@ def check(ctx):
     nrand = 2500 if ctx.thorough else 400
     rnd = []
     for i in range(nrand):
-        kind = (kinds + ["xt"])[i % 4]          # xt: igris::ring of an element type whose constructors can throw
+        kind = (kinds + ["xt", "xl"])[i % 5]    # xt: elements whose constructors can throw; xl: elements that also have an initializer_list constructor
         size = ctx.rng.choice([2, 3, 4, 5, 6, 7, 8, 9, 15, 16, 17, 31, 32, 33]) if i % 4 else ctx.rng.randrange(2, 34)
         rnd += random_script(ctx.rng, kind, size, 120 if ctx.thorough else 60)
     # a few rings around the 8-bit boundary (indices and counts that do not fit a byte)
